@@ -1157,3 +1157,74 @@ def r14_float_bilinear_weights(ck, P, rid='C08-R14'):
                 ck.violation(R, f.name, 'channel %s (%s)' % (c, un), 'bilinear_interpolation_float computes channel %s as %s, which is not the four-neighbour blend (difference %s): that channel is interpolated with other weights than the rest of the pixel' % (c, sympy.factor(got), sympy.factor(sympy.expand(got - want))), x.loc())
     if n == 0:
         ck.incomplete(R, 'bilinear_interpolation_float not found in any unit')
+
+
+def r15_mask_stride_follows_pipeline(ck, P, rid='C08-R15'):
+    """T-WID: a routine that serves both pipelines (it takes a selector that its callers pass as the constants 0 and 1) and looks at the
+    mask scanline reads the mask with the element size of the selected pipeline: one word per pixel only under selector == 0."""
+    R = ck.rule(rid, 'in every routine that is instantiated for both the 32-bit and the float pipeline through a constant 0/1 selector and that reads a mask scanline, a read of mask[i] (one word per pixel) happens only under selector == 0; under the float pipeline a mask pixel is four words (argb_t) and is addressed as mask[4*i + k]: otherwise three of four source pixels are skipped or kept on the value of a neighbour\'s channel', floor=2)
+    # selector parameters: fixpoint over call sites
+    sel = set(); grew = True
+    fns = list(P.functions())
+    while grew:
+        grew = False
+        for g in fns:
+            for k, (pn, pt) in enumerate(g.params):
+                if (g, k) in sel or pt not in ('i32', 'i1', 'i8'):
+                    continue
+                sites = [(h, c) for h in fns if h.unit is g.unit for c in h.calls(g.name)]
+                if len(sites) < 2 and not any((h, a[1]) in sel for h, c in sites for a in [c.a[k]] if a[0] == 'a'):
+                    continue
+                vals = []
+                ok = True
+                for h, c in sites:
+                    a = c.a[k] if k < len(c.a) else None
+                    if a is None:
+                        ok = False
+                    elif a[0] == 'c' and int(a[1]) in (0, 1):
+                        vals.append(int(a[1]))
+                    elif a[0] == 'a' and (h, a[1]) in sel:
+                        vals += [0, 1]
+                    else:
+                        ok = False
+                if ok and set(vals) == {0, 1}:
+                    sel.add((g, k)); grew = True
+    n = 0
+    for g, k in sorted(sel, key=lambda t: (t[0].unit.name, t[0].name, t[1])):
+        mp = [i for i, (pn, pt) in enumerate(g.params) if pt == 'i32*' and 'mask' in (pn or 'mask')]
+        for m in mp:
+            for x in g.insts():
+                if x.op != 'load' or x.ty != 'i32':
+                    continue
+                y = g.v(x.a[0])
+                if y is None or y.op != 'getelementptr' or y.a[0] != ['a', m]:
+                    continue
+                idx = [st[1] for st in y.d.get('path', []) if st and st[0] in ('p', 'x') and isinstance(st[1], list)]
+                if not idx or idx[-1][0] != 'v':
+                    continue
+                lin = _lin(g, idx[-1])
+                coeffs = [c for key, c in (lin or {}).items() if key != 1]
+                scaled = bool(coeffs) and all(c % 4 == 0 for c in coeffs)
+                n += 1; ck.saw(g)
+                narrow_guard = False
+                for t, s in g.guard_edges(x.bb.id):
+                    cc = g.v(t.a[0]) if t.a else None
+                    if cc is None or cc.op != 'icmp' or cc.d['p'] not in ('eq', 'ne'):
+                        continue
+                    ops = []
+                    for q in cc.a:
+                        z = g.v(q)
+                        while z is not None and z.op in ('zext', 'sext', 'trunc'):
+                            q = z.a[0]; z = g.v(q)
+                        ops.append(q)
+                    if ['a', k] in ops and any(q[0] == 'c' and int(q[1]) == 0 for q in ops):
+                        is_zero_edge = (cc.d['p'] == 'eq') == (t.d['succ'][0] == s)
+                        if is_zero_edge:
+                            narrow_guard = True
+                where = '%s/%s: mask read at %s (%s index)' % (g.unit.name, g.name, x.loc(), 'scaled' if scaled else 'per-pixel')
+                if scaled or narrow_guard:
+                    ck.ok(R, where)
+                else:
+                    ck.violation(R, g.name, 'mask read at %s' % x.loc(), '%s serves both pipelines (parameter %s is passed as 0 and as 1) but reads mask[i] as one word per pixel whatever the pipeline: in the float pipeline the mask scanline holds four floats per pixel, so the test looks at a channel of pixel i/4 - with an a8 mask (r = g = b = 0.0) three of every four source pixels are skipped and composited as zero' % (g.name, g.params[k][0] or k), x.loc())
+    if n == 0:
+        ck.incomplete(R, 'no mask read in a routine shared by both pipelines found')
